@@ -129,6 +129,17 @@ func unescape(c byte) byte {
 	return c
 }
 
+// ReadFile reads a file the way the HAProxy process would see it. The fault
+// injector of the checks makes a *write* fail by putting a directory in the
+// place of the target and keeping the previous content in <name>.orig; a reader
+// must still see that previous content (a failed write leaves the old file).
+func ReadFile(path string) ([]byte, error) {
+	if st, err := os.Stat(path); err == nil && st.IsDir() {
+		return os.ReadFile(path + ".orig")
+	}
+	return os.ReadFile(path)
+}
+
 // LoadDir parses haproxy.cfg and every other *.cfg of dir in name order, which
 // is what `haproxy -f <dir>` loads.
 func LoadDir(dir string) (*Config, []string) {
@@ -140,9 +151,15 @@ func LoadDir(dir string) (*Config, []string) {
 	}
 	var names []string
 	for _, e := range entries {
-		if !e.IsDir() && strings.HasSuffix(e.Name(), ".cfg") {
-			names = append(names, e.Name())
+		if !strings.HasSuffix(e.Name(), ".cfg") {
+			continue
 		}
+		if e.IsDir() {
+			if _, err := os.Stat(filepath.Join(dir, e.Name()+".orig")); err != nil {
+				continue
+			}
+		}
+		names = append(names, e.Name())
 	}
 	sort.Strings(names)
 	for _, n := range names {
@@ -157,7 +174,7 @@ func LoadDir(dir string) (*Config, []string) {
 }
 
 func (c *Config) parseFile(path string) {
-	data, err := os.ReadFile(path)
+	data, err := ReadFile(path)
 	if err != nil {
 		c.Errors = append(c.Errors, err.Error())
 		return
@@ -315,7 +332,7 @@ func (c *Config) Map(path string) *MapFile {
 		return m
 	}
 	m := &MapFile{Path: path}
-	data, err := os.ReadFile(path)
+	data, err := ReadFile(path)
 	if err != nil {
 		m.Err = err
 	} else {
@@ -345,7 +362,7 @@ type CrtListEntry struct {
 
 // CrtList parses a crt-list file.
 func (c *Config) CrtList(path string) ([]CrtListEntry, error) {
-	data, err := os.ReadFile(path)
+	data, err := ReadFile(path)
 	if err != nil {
 		return nil, err
 	}
